@@ -82,7 +82,7 @@ func cleanString(str string) string {
 		str = str[1:]
 	}
 	if len(str) > 1 && str[len(str)-1] == byte(0) {
-		str = str[0 : len(str)-2]
+		str = str[0 : len(str)-1]
 	}
 	return str
 }
